@@ -153,6 +153,7 @@ func props() map[string]Prop {
 			Units: []Unit{
 				{Name: "endpoint", Module: "godev", Pkg: "cmd/telemetrygodev", Harness: "godev_server", Run: "^TestVerifC12$", Timeout: 30 * time.Minute},
 				{Name: "race", Module: "godev", Pkg: "cmd/telemetrygodev", Harness: "godev_server", Run: "^TestVerifC12$", Race: true, Timeout: 30 * time.Minute, Env: []string{"VERIF_SCALE=0.1"}},
+				{Name: "commit", Module: "godev", Pkg: "cmd/telemetrygodev", Harness: "godev_server", Run: "^TestVerifC12Commit$", Timeout: 20 * time.Minute},
 			},
 			Assume: []string{"the FS storage backend stands for the bucket"},
 		},
